@@ -94,3 +94,11 @@ Example C11_nonvacuous :
   resolve_member no_resolve F_ANY 10 2 data 0 = Ok (PInt 42) /\
   resolve_member no_resolve F_ANY 10 2 data 1 = Ok (PName [65]).
 Proof. split; vm_compute; reflexivity. Qed.
+
+(** … and a header that is directly followed by its first member (/First = length of the header, no white-space: legal when the
+    member starts with a delimiter):  "10 0" ++ "[1]"  and  "10 0 11 4" ++ "/A 7" *)
+Example C11_header_abuts_first_member :
+  resolve_member no_resolve F_ANY 4 1 ([49;48;32;48] ++ [91;49;93]) 0 = Ok (PArr [PInt 1]) /\
+  resolve_member no_resolve F_ANY 9 2 ([49;48;32;48;32;49;49;32;52] ++ [47;65;32;32] ++ [55]) 0 = Ok (PName [65]) /\
+  resolve_member no_resolve F_ANY 9 2 ([49;48;32;48;32;49;49;32;52] ++ [47;65;32;32] ++ [55]) 1 = Ok (PInt 7).
+Proof. repeat split; vm_compute; reflexivity. Qed.
